@@ -38,11 +38,43 @@ type Case struct {
 	Expect Expect `json:"expect"`
 	Desc   string `json:"desc"`
 	Class  string `json:"class"`
+	// Prev: the case loaded immediately before this one (only recorded for "stale" violations, which need the
+	// two loads in sequence: results handed out earlier must stay valid after later loads)
+	Prev *Case `json:"prev,omitempty"`
 }
 
+// the previous case's returned profile bytes and what they must (still) be
+var prevICC, prevWant []byte
+var prevCase *Case
+
 func check(c Case) (kind, what string) {
+	if c.Prev != nil {
+		// replay of a two-step case
+		prevICC, prevWant, prevCase = nil, nil, nil
+		p := *c.Prev
+		p.Prev = nil
+		if k, w := check(p); k != "" {
+			return k, w
+		}
+	}
 	name := ld.ForFormat(c.Format)
 	o := ld.Run(name, bytes.NewReader(c.Data))
+	// results handed out by the previous load must not have been changed by this one
+	if prevICC != nil && !bytes.Equal(prevICC, prevWant) {
+		pc := prevCase
+		prevICC, prevWant, prevCase = nil, nil, nil
+		cc := c
+		cc.Prev = pc
+		staleCase = &cc
+		return c.Format + "/stale-after-next-load", fmt.Sprintf("the profile bytes returned for the previous image (%s) changed after this image (%s) was loaded", pc.Desc, c.Desc)
+	}
+	if o.ICC != nil && (c.Expect.Kind == "profile" || c.Expect.Kind == "profile-or-error") && bytes.Equal(o.ICC, c.Expect.Profile) {
+		cp := c
+		cp.Prev = nil
+		prevICC, prevWant, prevCase = o.ICC, append([]byte(nil), c.Expect.Profile...), &cp
+	} else {
+		prevICC, prevWant, prevCase = nil, nil, nil
+	}
 	k := c.Format + "/" + c.Class + "/"
 	if o.Panic != "" {
 		return k + "panic", o.Panic
@@ -110,6 +142,9 @@ func check(c Case) (kind, what string) {
 	}
 	return "", ""
 }
+
+// staleCase carries the two-step case of a stale-result violation to the reporting site
+var staleCase *Case
 
 func firstDiff(a, b []byte) int {
 	for i := 0; i < len(a) && i < len(b); i++ {
@@ -598,6 +633,9 @@ func TestC06(t *testing.T) {
 				ev.Sample(map[string]any{"desc": c.Desc, "class": c.Class, "file_bytes": len(c.Data), "expect": c.Expect.Kind})
 			}
 			if k, w := check(c); k != "" {
+				if staleCase != nil {
+					c, staleCase = *staleCase, nil
+				}
 				ev.Fail(rt, "icc", k, w, c)
 			}
 		})
